@@ -133,6 +133,65 @@ def gen_case(rng, kind, dyadic=False, batch="none", n=None, code=None, route=Non
     c["layout"] = rng.choice(["BK", "BK", "B1", "1K", "vec"] if R == 1 else ["BK", "BK", "B1", "1K"])
     if names and kind != "Empirical" and rng.random() < (0.3 if kind == "MG94" else 0.6):
         add_updates(rng, c, rng.randint(1, 2))
+    if not dyadic:
+        apply_regime(rng, c, rng.choice(["f64"] * 5 + ["f32default"] * 2 + ["f32in"] * 2))
+    if rng.random() < 0.2:
+        c["deepcopy"] = True
+    if rng.random() < 0.2:
+        c["move"] = rng.choice(["cpu", "to"])
+    return c
+
+
+IN_DTYPE = {"f64": "float64", "f32default": "float64", "f32in": "float32", "int": "int64"}
+EPS32 = 1.1920929e-07
+
+
+def regime_of(c):
+    return c.get("regime", "f64")
+
+
+def reference_low_precision(c):
+    """results are float32, or the reference exp(t q()/norm) is built from a float32 q() (models without inputs live
+    in the default dtype)"""
+    return low_precision(c) or (regime_of(c) == "f32default" and c["kind"] in ("JC69", "GeneralJC69"))
+
+
+def low_precision(c):
+    """results are float32 in this regime"""
+    r = regime_of(c)
+    return r == "f32in" or (r == "f32default" and c["kind"] in ("LG", "WAG"))
+
+
+def f32(x):
+    import struct
+
+    return struct.unpack("<f", struct.pack("<f", x))[0]
+
+
+def apply_regime(rng, c, regime):
+    """f32in: float32 inputs under default float64 (values rounded to float32 so the model sees the same numbers;
+    rates within 1e-2..1e2, frequencies >= 1e-2, branch lengths <= 10 so that float32 keeps some accuracy).
+    f32default: float64 inputs under default float32. LG/WAG have no inputs: they live in the default dtype, and
+    mixing their dtype with another branch-length dtype raises, so f32in is not applied to them and under f32default
+    the branch lengths are float32 as well."""
+    if c["kind"] in ("LG", "WAG", "Empirical") and regime == "f32in":
+        regime = "f64"
+    c["regime"] = regime
+    if regime == "f32in":
+        def fixrow(name, row):
+            if name == "frequencies":
+                row = [max(x, 1e-2) for x in row]
+                tot = sum(row)
+                row = [f32(x / tot) for x in row]
+                return row
+            return [f32(min(max(x, 1e-2), 1e2)) for x in row]
+
+        c["params"] = {k: [fixrow(k, r) for r in v] for k, v in c["params"].items()}
+        for u in c.get("updates", []):
+            u["set"] = {k: [fixrow(k, r) for r in v] for k, v in u["set"].items()}
+        c["ts"] = [[f32(min(t, 10.0)) for t in row[:3]] for row in c["ts"]]
+        c["ts"] = [[r[0], r[1], r[2], f32(r[1] + r[2])] for r in c["ts"]]
+        c["dyadic"] = False
     return c
 
 
@@ -251,9 +310,11 @@ def build(c):
     )
     from torchtree.evolution.substitution_model.nucleotide import GTR, HKY, JC69
 
+    in_dtype = getattr(torch, IN_DTYPE[regime_of(c)])
+
     def tens(name):
         v = c["params"][name]
-        return torch.tensor(v if c["batch"][name] else v[0], dtype=torch.float64)
+        return torch.tensor(v if c["batch"][name] else v[0], dtype=torch.float64).to(in_dtype)
 
     def par(name):
         PARS[name] = Parameter(name, tens(name))
@@ -310,7 +371,10 @@ def build(c):
     ref = route.get("form") == "ref"
 
     def pjson(name):
-        return {"id": "m." + name, "type": "Parameter", "tensor": tens(name).tolist()}
+        d = {"id": "m." + name, "type": "Parameter", "tensor": tens(name).tolist()}
+        if regime_of(c) != "f64":
+            d["dtype"] = str(in_dtype)  # the JSON names the dtype when it is not the default one
+        return d
 
     def sub(obj):
         if ref:
@@ -335,6 +399,8 @@ def build(c):
                 data[nm].pop("full", None)
                 data[nm]["tensor"] = tens(nm).tolist()
                 data[nm]["id"] = "m." + nm
+                if regime_of(c) != "f64":
+                    data[nm]["dtype"] = str(in_dtype)
         elif k == "GeneralNonSymmetric":
             # the literal of cli/evolution.py: create_tree_likelihood_general (identity mapping, no `normalize`,
             # an extra `state_count` key, data type inline)
@@ -405,7 +471,7 @@ def observe(m, c):
         if k == "Empirical":
             continue
         v = c["params"][nm]
-        t = torch.tensor(v if c["batch"][nm] else v[0], dtype=torch.float64)
+        t = torch.tensor(v if c["batch"][nm] else v[0], dtype=torch.float64).to(getattr(torch, IN_DTYPE[regime_of(c)]))
         holder = getattr(m, "_" + nm, None)
         if holder is None:
             holder = getattr(m, nm, None)
@@ -425,35 +491,83 @@ def impl_eval(c):
     dict(status='raise'|'shape', error=(type, msg))"""
     import torch
 
+    import copy
+
     outs = []
     OBSERVED[:] = []
+    regime = regime_of(c)
+    old_default, old_grad = torch.get_default_dtype(), torch.is_grad_enabled()
+    torch.set_default_dtype(torch.float32 if regime == "f32default" else torch.float64)
+    torch.set_grad_enabled(c.get("grad") != "no_grad")
+    try:
+        return _impl_eval(c, outs, regime, copy)
+    finally:
+        torch.set_default_dtype(old_default)
+        torch.set_grad_enabled(old_grad)
+
+
+def _impl_eval(c, outs, regime, copy):
+    import torch
+
     try:
         m = build(c)
         OBSERVED[:] = observe(m, c)
+        if c.get("grad") == "requires_grad":
+            for par_ in PARS.values():
+                if par_.tensor.is_floating_point():
+                    par_.requires_grad = True
     except Exception as e:  # an outcome to be judged, not a harness crash
         return [{"status": "raise", "error": (type(e).__name__, str(e)[:200])}]
     n, R = c["n"], c["R"]
     cap = {}
-    if hasattr(m, "eigen") and c["kind"] not in ("Empirical", "LG", "WAG", "GeneralNonSymmetric"):
-        orig = m.eigen
 
-        def wrapped(Sm):
-            e, v = orig(Sm)
-            cap.update(S=Sm, e=e, v=v)
-            return e, v
+    def wrap(obj):
+        if hasattr(obj, "eigen") and c["kind"] not in ("Empirical", "LG", "WAG", "GeneralNonSymmetric"):
+            orig = obj.eigen
 
-        m.eigen = wrapped
+            def wrapped(Sm):
+                e, v = orig(Sm)
+                cap.update(S=Sm, e=e, v=v)
+                return e, v
+
+            obj.eigen = wrapped
+
+    wrap(m)
     lay = LAYOUT[c.get("layout", "BK")]
-    ts = torch.tensor(c["ts"], dtype=torch.float64).reshape((R,) + lay)
+    ts_dtype = torch.float32 if (regime == "f32in" or (regime == "f32default" and c["kind"] in ("LG", "WAG"))) \
+        else torch.float64
+    ts = torch.tensor(c["ts"], dtype=torch.float64).to(ts_dtype).reshape((R,) + lay)
     if R == 1:
         ts = ts[0]
+    ts_supplied = ts.clone()
+    supplied = {nm: par_.tensor.detach().clone() for nm, par_ in PARS.items()}
+
+    def move():
+        if c.get("move") == "cpu":
+            m.cpu()
+        elif c.get("move") == "to":
+            m.to(torch.device("cpu"))
 
     def read():
         cap.clear()
         Q = m.q().detach()
         fr = m.frequencies.detach()
         P = m.p_t(ts).detach()
-        out = {"status": "ok"}
+        if not all(isinstance(x, torch.Tensor) for x in (Q, fr, P)) or Q.numel() % (n * n) or fr.numel() % n:
+            return {"status": "shape", "error": ("shape", f"q()/frequencies/p_t returned {tuple(getattr(Q, 'shape', ()))} "
+                                                          f"{tuple(getattr(fr, 'shape', ()))} for n={n}")}
+        out = {"status": "ok", "meta": {"Q_dtype": str(Q.dtype), "P_dtype": str(P.dtype)}}
+        # the same calls twice give the same answer; nothing handed in was modified
+        Q2, P2 = m.q().detach(), m.p_t(ts).detach()
+        if not (torch.equal(torch.nan_to_num(Q), torch.nan_to_num(Q2)) and torch.equal(torch.nan_to_num(P), torch.nan_to_num(P2))):
+            out["meta"]["not_repeatable"] = True
+        mutated = [nm for nm, par_ in pars.items() if nm in supplied and
+                   (par_.tensor.shape != supplied[nm].shape or not torch.equal(par_.tensor.detach(), supplied[nm]))]
+        if not torch.equal(ts, ts_supplied):
+            mutated.append("branch_lengths")
+        if mutated:
+            out["meta"]["mutated_inputs"] = mutated
+        Q, fr, P = Q.double(), fr.double(), P.double()
         Qn = Q.reshape(-1, n, n).numpy()
         out["Q"] = [Qn[s if Qn.shape[0] > 1 else 0] for s in range(R)]
         frn = fr.reshape(-1, n).numpy()
@@ -463,18 +577,18 @@ def impl_eval(c):
                                                           f"{tuple(ts.shape)}, parameter slices {c['S']}, n={n}")}
         out["P"] = P.reshape(R, 4, n, n).numpy()
         if hasattr(m, "norm"):
-            nr = m.norm(Q).detach().reshape(-1).numpy()
+            nr = m.norm(m.q()).detach().double().reshape(-1).numpy()
             out["norm"] = [float(nr[s if nr.shape[0] > 1 else 0]) for s in range(R)]
         else:
             out["norm"] = None
         eig = None
         if c["kind"] in ("Empirical", "LG", "WAG"):
-            eig = [{"e": m.e.numpy(), "v": m.v.numpy(), "vinv": m.v.inverse().numpy(), "S": None}]
+            eig = [{"e": m.e.double().numpy(), "v": m.v.double().numpy(), "vinv": m.v.inverse().double().numpy(), "S": None}]
         elif cap:
-            e = cap["e"].detach().reshape(-1, n)
-            v = cap["v"].detach().reshape(-1, n, n)
-            Sm = cap["S"].detach().reshape(-1, n, n)
-            vi = v.inverse()
+            vi = cap["v"].detach().inverse().double().reshape(-1, n, n)
+            e = cap["e"].detach().double().reshape(-1, n)
+            v = cap["v"].detach().double().reshape(-1, n, n)
+            Sm = cap["S"].detach().double().reshape(-1, n, n)
             eig = [{"e": e[i].numpy(), "v": v[i].numpy(), "vinv": vi[i].numpy(), "S": Sm[i].numpy()}
                    for i in range(e.shape[0])]
         out["eig"] = eig
@@ -489,18 +603,43 @@ def impl_eval(c):
         return pars[name]
 
     try:
+        if c.get("move"):
+            move()  # a device move before the first evaluation
         outs.append(read())
     except Exception as e:
         return [{"status": "raise", "error": (type(e).__name__, str(e)[:200])}]
-    for u in c.get("updates", []):
+    original = None
+    if c.get("deepcopy") and c.get("updates") and outs[0]["status"] == "ok" and c.get("grad") != "requires_grad":
+        # the history is applied to a deep copy; the original must keep answering as before
+        try:
+            m.__dict__.pop("eigen", None)  # the observation wrapper is a closure over the original
+            cap.clear()
+            original = (m, outs[0])
+            m, pars = copy.deepcopy((m, pars))
+            wrap(m)
+        except Exception as e:
+            outs.append({"status": "raise", "error": (type(e).__name__, "deepcopy: " + str(e)[:180])})
+            return outs
+    for i, u in enumerate(c.get("updates", [])):
         if outs[-1]["status"] != "ok":
             break
         try:
             for name, rows in u["set"].items():
-                handle(name).tensor = torch.tensor(rows if c["batch"][name] else rows[0], dtype=torch.float64)
+                t = torch.tensor(rows if c["batch"][name] else rows[0], dtype=torch.float64).to(supplied[name].dtype)
+                supplied[name] = t.clone()
+                pars[name].tensor = t
+            if c.get("move") and i % 2 == 0:
+                move()
             outs.append(read())
         except Exception as e:
             outs.append({"status": "raise", "error": (type(e).__name__, str(e)[:200])})
+    if original is not None and outs[-1]["status"] == "ok":
+        m = original[0]
+        pars = {}
+        again = read()
+        if again["status"] != "ok" or not all(np.array_equal(a, b) for a, b in zip(again["Q"], original[1]["Q"])) \
+                or not np.array_equal(again["P"], original[1]["P"]):
+            outs[-1]["meta"]["original_changed_by_updates_on_its_deepcopy"] = True
     return outs
 
 
@@ -582,7 +721,14 @@ def expm_taylor(A):
     return acc
 
 
-def tol_for(A, freqs):
+def tol_for(A, freqs, regime="f64"):
+    t = _tol_for(A, freqs)
+    if regime == "f32in":
+        return 1e-5 + (t - 1e-10) * (EPS32 / EPS)
+    return t
+
+
+def _tol_for(A, freqs):
     """absolute tolerance on transition probabilities: 1e-10 plus the rounding error scale of ANY double
     precision evaluation of exp(A): eps * ||A||_inf * sqrt(pi_max/pi_min) (calibrated against mpmath: a
     correct implementation stays below 25 eps ||A||; the factor 100 leaves room)"""
@@ -603,6 +749,20 @@ def oracle(c, out):
     -> list of (name, detail)"""
     bad = []
     n = c["n"]
+    regime = regime_of(c)
+    f32in = regime == "f32in"
+    qtol = 1e-4 if f32in or (regime == "f32default" and c["kind"] in ("JC69", "GeneralJC69", "LG", "WAG")) else 1e-12
+    # float32 results, or a reference built from a float32 q() (JC69/GeneralJC69/LG/WAG live in the default dtype)
+    tr = "f32in" if (f32in or (regime == "f32default" and c["kind"] in ("LG", "WAG", "JC69", "GeneralJC69"))) else "f64"
+    meta = out.get("meta") or {}
+    for key in ("not_repeatable", "mutated_inputs", "original_changed_by_updates_on_its_deepcopy"):
+        if meta.get(key):
+            bad.append((key, {"value": meta[key]}))
+    if meta:
+        lowp = f32in or (regime == "f32default" and c["kind"] in ("LG", "WAG"))
+        want_p = "torch.float32" if lowp else "torch.float64"
+        if meta.get("P_dtype") != want_p:
+            bad.append(("result_dtype", {"regime": regime, "P": meta.get("P_dtype"), "expected": want_p}))
     for s in range(c["R"]):
         Q = np.asarray(out["Q"][s], dtype=np.float64)
         fr = np.asarray(out["freqs"][s], dtype=np.float64)
@@ -613,7 +773,7 @@ def oracle(c, out):
             continue
         qs = max(1.0, float(np.abs(Q).max()))
         rs = np.abs(Q.sum(1)).max()
-        if rs > 1e-12 * qs * n:
+        if rs > qtol * qs * n:
             bad.append(("Q_rows_zero", {"slice": s, "max_row_sum": float(rs)}))
         off = Q - np.diag(np.diag(Q))
         if off.min() < 0:
@@ -626,14 +786,14 @@ def oracle(c, out):
         if c["kind"] in REVERSIBLE:
             F = fr[:, None] * Q
             db = np.abs(F - F.T).max()
-            if db > 1e-12 * qs:
+            if db > qtol * qs:
                 bad.append(("Q_detailed_balance", {"slice": s, "max_violation": float(db)}))
-        tol_max = tol_for(Qn * ts[3], fr)
+        tol_max = tol_for(Qn * ts[3], fr, tr)
         I = np.eye(n)
-        if np.abs(P[0] - I).max() > tol_for(Qn * 0.0, fr):
+        if np.abs(P[0] - I).max() > tol_for(Qn * 0.0, fr, tr):
             bad.append(("P0_identity", {"slice": s, "max_dev": float(np.abs(P[0] - I).max())}))
         for b, t in enumerate(ts):
-            tol = tol_for(Qn * t, fr)
+            tol = tol_for(Qn * t, fr, tr)
             d = np.abs(P[b].sum(1) - 1.0).max()
             if d > tol:
                 bad.append(("rows_sum_one", {"slice": s, "t": t, "max_dev": float(d)}))
